@@ -86,6 +86,9 @@ func checkC14(c C14Case) error {
 	if err1 != nil || err2 != nil || err3 != nil {
 		return ev.Errf("driver/decode", "decoding reference encodings of valid values failed: %v / %v / %v", err1, err2, err3)
 	}
+	if !wm.DupFree(t.Fill(c.VOther)) || !wm.DupFree(t.Fill(c.V)) {
+		return nil // a saved case from before the domain check covered default-filled duplicates
+	}
 	structural := func(a, b wm.W) bool { return wm.SemEqual(t.Fill(a), t.Fill(b)) }
 	type pair struct {
 		name string
@@ -328,8 +331,9 @@ func C14(t *testing.T) {
 		tg := drawTarget(rt, nil)
 		v := tg.GenValue(rt, im.ValOpts{Depth: rapid.IntRange(1, 4).Draw(rt, "depth"), NoNaN: true}, "v")
 		other, how := perturb(rt, tg, v)
-		if !wm.DupFree(other) {
-			// the perturbation made two set elements / map keys equal: outside the domain
+		if !wm.DupFree(other) || !wm.DupFree(tg.Fill(other)) {
+			// the perturbation made two set elements / map keys equal — as written, or once the
+			// defaults of absent fields are filled in (which decoding does): outside the domain
 			other, how = v, "none"
 		}
 		c := C14Case{CaseHeader: header(tg), V: v, VPerm: Shuffle(rt, v, "shuf"), VOther: other, Perturb: how, Stream: rapid.Bool().Draw(rt, "stream")}
